@@ -63,6 +63,18 @@ class Mirror:
     def encode(self, headers):
         return self.enc.encode(headers)
 
+    def set_encoder_table_size(self, size):
+        """The simulated peer's encoder changes its table size.  Several changes between two header blocks are
+        signalled as RFC 7541 s4.2 requires - the smallest, then the final one - where hpack.Encoder would list
+        every intermediate value, including ones above the limit the decoder has by then."""
+        if self.enc.header_table_size == size:
+            return
+        self.enc.header_table_size = size
+        chg = list(self.enc.table_size_changes)
+        if len(chg) > 1:
+            low, last = min(chg), chg[-1]
+            self.enc.table_size_changes = [last] if low == last else [low, last]
+
 
 def as_bytes(x):
     return x.encode('utf-8') if isinstance(x, str) else bytes(x)
